@@ -373,6 +373,10 @@ def check_loaders(A, rep):
             neg = False
             while c.kind == "not":
                 c, neg = c.args[0], not neg
+            if c.kind == "call" and c.args[0] in ("os.path.exists", "os.path.isfile", "os.path.lexists"):
+                # `if not os.path.exists(fn): return None`
+                if n["arm"] is neg:
+                    wit.append(n.id)
             if c.kind == "cmp" and len(c.args) == 3:
                 op = c.args[0]
                 if any(x.kind == "ext" and isinstance(x.args[0], str) and x.args[0].endswith("ENOENT") for x in c.walk()) and op in ("==", "!=", "is", "is not"):
